@@ -2,6 +2,6 @@ use ark_ff::fields::{Fp384, MontBackend, MontConfig};
 
 #[derive(MontConfig)]
 #[modulus = "39402006196394479212279040100143613805079739270465446667948293404245721771496870329047266088258938001861606973112319"]
-#[generator = "2"]
+#[generator = "19"]
 pub struct FqConfig;
 pub type Fq = Fp384<MontBackend<FqConfig, 6>>;
